@@ -23,6 +23,22 @@ type Config struct {
 	Alloc    string `json:"alloc"` // "go" | custom allocator behaviour: "exact" | "reserve" | "recycled" | "refusing"
 	Imported bool   `json:"imported"`
 	Shared   bool   `json:"shared,omitempty"` // threads proposal: shared memory (needs a declared max)
+	// Prime: before this configuration is explored, the same binaries are compiled and instantiated in ANOTHER
+	// runtime with the limits below that shares the CompilationCache with the explored runtime.
+	Prime *Prime `json:"prime,omitempty"`
+}
+
+type Prime struct {
+	Limit  uint32 `json:"limit"`
+	CapMax bool   `json:"capacity_from_max"`
+	Cache  string `json:"cache"` // "mem": one in-memory cache object; "dir": directory cache, fresh cache object per runtime
+}
+
+// primeConfig is the configuration of the priming runtime.
+func (c Config) primeConfig() Config {
+	p := c
+	p.Limit, p.CapMax, p.Prime = c.Prime.Limit, c.Prime.CapMax, nil
+	return p
 }
 
 func (c Config) String() string {
@@ -36,6 +52,9 @@ func (c Config) String() string {
 	}
 	if c.Shared {
 		loc += " shared"
+	}
+	if c.Prime != nil {
+		loc += fmt.Sprintf(" after-runtime(limit=%d capFromMax=%v)-on-shared-%s-cache", c.Prime.Limit, c.Prime.CapMax, c.Prime.Cache)
 	}
 	return fmt.Sprintf("min=%d max=%s limit=%d capFromMax=%v alloc=%s %s", c.Min, mx, c.Limit, c.CapMax, c.Alloc, loc)
 }
@@ -74,8 +93,12 @@ func (c Config) GrowBound() uint32 {
 func (c Config) Accepted() bool { return c.Min <= c.Limit }
 
 // Huge: some reachable size (or the eager capacity) is a multi-GiB buffer.
-// A shared memory is allocated with its maximum as capacity right away.
+// A shared memory is allocated with its maximum as capacity right away. Cache-sharing pairs never execute a huge
+// reallocation; they hold a multi-GiB reservation only through capacity-from-max.
 func (c Config) Huge() bool {
+	if c.Prime != nil {
+		return (c.CapMax && c.Bound() >= hugePages) || (c.Prime.CapMax && c.primeConfig().Bound() >= hugePages)
+	}
 	return c.Accepted() && (c.GrowBound() >= hugePages || (c.Shared && c.Bound() >= hugePages))
 }
 
@@ -106,6 +129,45 @@ func allConfigs() []Config {
 						if has && al != "exact" {
 							for _, imp := range []bool{false, true} {
 								out = append(out, Config{Min: mn, Max: mx, HasMax: has, Limit: lim, CapMax: cm, Alloc: al, Imported: imp, Shared: true})
+							}
+						}
+					}
+				}
+			}
+		}
+	}
+	return append(out, pairConfigs()...)
+}
+
+// pairConfigs: two runtimes with DIFFERENT limits (and capacity-from-max) share one CompilationCache; the binaries
+// are compiled and instantiated in the priming runtime first, then the usual exploration runs in the other one.
+// Declarations where the limit decides (min in {1,2,3}, max absent or above the small limit), small limit
+// in {min, min+1}, large limit in {min+2, 65536}, both orders, in-memory and directory cache, local and imported.
+func pairConfigs() []Config {
+	var out []Config
+	caps := [][2]bool{{false, false}, {true, false}, {false, true}} // (small-limit runtime, large-limit runtime)
+	for _, mn := range []uint32{1, 2, 3} {
+		for _, has := range []bool{false, true} {
+			for _, small := range []uint32{mn, mn + 1} {
+				for _, large := range []uint32{mn + 2, 65536} {
+					for ci, cp := range caps {
+						if large == 65536 && ci > 0 {
+							continue // capacity-from-max differs at the small limits only: no 4 GiB reservations in pairs
+						}
+						for _, smallFirst := range []bool{true, false} {
+							for _, cache := range []string{"mem", "dir"} {
+								for _, imp := range []bool{false, true} {
+									c := Config{Min: mn, Max: 65536, HasMax: has, Alloc: "go", Imported: imp}
+									if !has {
+										c.Max = 0
+									}
+									if smallFirst {
+										c.Limit, c.CapMax, c.Prime = large, cp[1], &Prime{small, cp[0], cache}
+									} else {
+										c.Limit, c.CapMax, c.Prime = small, cp[0], &Prime{large, cp[1], cache}
+									}
+									out = append(out, c)
+								}
 							}
 						}
 					}
